@@ -348,9 +348,11 @@ public:
       c[g].conserved(4) = std::max(c[g].conserved(4), 0.);
       for (int j = 0; j < 5; ++j) {
         s.unew[g][j] = c[g].conserved(j);
+        // (+ absolute round-off of subnormal numbers)
         s.tol[g][j] = 16. * EPS *
-                      (dt * s.absflux[g][j] + std::abs(s.uold[g][j]) +
-                       std::abs(s.unew[g][j]));
+                          (dt * s.absflux[g][j] + std::abs(s.uold[g][j]) +
+                           std::abs(s.unew[g][j])) +
+                      64. * 4.9406564584124654e-324;
       }
       if (s.pre[g][0] < -s.tol[g][0])
         ++s.clamp_mass;
